@@ -28,7 +28,7 @@ func init() {
 				"R16.1 classes: flag table maps Uppers,Lowers,Digits,Symbols,Ambiguous to exactly A-Z,a-z,0-9,!@.-_*,0O1Il5S (as sets, no repeats); five distinct single bits; None==0, Letters==Uppers|Lowers, All==Letters|Digits|Symbols",
 				"R16.2 constructor defaults: NewCharRecipe stores exactly Length=param, Allow=Letters|Digits|Symbols, Exclude=Ambiguous into a fresh recipe; NewWLRecipe stores Length, list from parameters, Capitalize=CSNone, nothing else; CapScheme constants have the documented strings",
 				"R16.3 presets: SFNone returns (\"\",0); the six others are NewSFFunction(CharRecipe{Length,Allow,Exclude}) with the documented triples and no other field; the function NewSFFunction returns forwards Generate().String() and Password.Entropy of exactly that recipe",
-				"R16.4 retry budget: MaxTrials initialised to 200, MaxFailRate to exactly 1/10^9; neither is stored to outside the package initialiser",
+				"R16.4 retry budget: MaxTrials initialised to 200, MaxFailRate to exactly 1/10^9; neither is stored to outside the package initialiser; the character draws sit in a counted loop of exactly MaxTrials attempts",
 				"R16.5 shipped lists: AgileWords/AgileSyllables elements equal the lines of testdata/agwordlist.txt / agsyllables.txt in order; duplicate-free, lower-case, non-empty; never stored to (variable or elements) outside the initialiser",
 			},
 			Trusted:    commonTrusted,
@@ -289,6 +289,21 @@ func runC16(p *core.Program, r *core.Report) {
 		wantF, _ := constant.Float64Val(want)
 		gotF, _ := constant.Float64Val(constant.ToFloat(iv.Const.Value))
 		r.Trivial(gotF == wantF && iv.NStores == 1, "R16.4", "init", "MaxFailRate == 1/10^9 (nearest float64)", p.Pos(iv.Store.Pos()), fmt.Sprintf("value %v", iv.Const.Value))
+	}
+	// the budget in force is the documented one: every character draw of the
+	// generator sits in a counted loop of exactly MaxTrials attempts
+	if cg := p.Method("CharRecipe", "Generate"); cg != nil {
+		loops := core.Loops(cg)
+		nSites := 0
+		for _, site := range GetRoles(p).ChoiceSites {
+			if site.Parent() != cg {
+				continue
+			}
+			nSites++
+			r.Check(inAttemptBudgetLoop(loops, site), "R16.4", core.FuncName(cg), "character draws are made in a counted loop of exactly MaxTrials attempts (0 <= i < MaxTrials, step 1)", p.InstrPos(site),
+				"the documented default budget (200 attempts) is the number of candidates drawn before giving up")
+		}
+		r.Floor("R16.4", "character draw sites in the retry loop", nSites, 1)
 	}
 	for _, g := range []string{"MaxTrials", "MaxFailRate", "AgileWords", "AgileSyllables"} {
 		n := storesOutsideInit(p, r, "R16.4", g, initFn)
